@@ -333,6 +333,10 @@ func (m *Module) BeforeBlock(w *engine.World, bp *engine.BlockPlan) {
 	m.tapPending = nil
 }
 
+// AfterSimulate: callbacks fired while a transaction was simulated (gas estimation on a
+// discarded branch) are not history either.
+func (m *Module) AfterSimulate(w *engine.World) { m.tapPending = nil }
+
 func txHashOf(ctx sdk.Context) string {
 	if bz := ctx.TxBytes(); len(bz) > 0 {
 		h := sha256.Sum256(bz)
